@@ -61,11 +61,23 @@ def batch_main(fin, fout, perturb):
     rnd = random.Random(perturb)
     out = {}
     garbage = []
+    import signal
+
+    class CaseTimeout(BaseException):
+        pass
+
+    def _alarm(signum, frame):
+        raise CaseTimeout()
+
+    signal.signal(signal.SIGALRM, _alarm)
     for c in cases:
         # heap perturbation: a seeded amount of garbage of mixed sizes that stays alive during the case
         garbage = [bytearray(rnd.randrange(16, 4096)) for _ in range(rnd.randrange(0, 400))] if perturb else []
         filler = [object() for _ in range(rnd.randrange(0, 2000))] if perturb else []
         rec = {}
+        # the library's merge-group closure is exponential on some inputs: a case that does not finish is inconclusive in every
+        # environment (never compared), it must not hold up the batch
+        signal.setitimer(signal.ITIMER_REAL, 20)
         try:
             run = driver.infer([(n, s) for n, s in c["models"]], c["opts"])
             rec["merged"] = sum(1 for _n, old in run.replaces if len(old) >= 2)
@@ -77,8 +89,12 @@ def batch_main(fin, fout, perturb):
                     rec["flat" if flat else "nested"] = code
                 except Exception as e:
                     rec["flat" if flat else "nested"] = f"<<raised {type(e).__name__}: {e}>>"
+        except CaseTimeout:
+            rec = {"timeout": True}
         except Exception as e:
             rec["error"] = f"{type(e).__name__}: {e}"
+        finally:
+            signal.setitimer(signal.ITIMER_REAL, 0)
         out[str(c["i"])] = rec
         del filler
     with open(fout, "w") as f:
@@ -197,6 +213,9 @@ def main():
                 recs = [pe.get(str(c["i"])) if pe else None for pe in per_env]
                 if any(r is None for r in recs):
                     v.add(c, {"status": "inconclusive", "why": "a batch process produced no result", "witnesses": []})
+                    continue
+                if any(r.get("timeout") for r in recs):
+                    v.add(c, {"status": "inconclusive", "why": "case timeout", "witnesses": []})
                     continue
                 wit = []
                 for key in ("flat", "nested", "error"):
